@@ -8,6 +8,37 @@ import traceback
 import warnings
 
 
+def _start_reach(repo):
+    """Development aid (tools/reach.py): with VERIF_REACH=<dir> record which
+    lines of <repo>/mir_eval this shard executed (each location reports once and
+    is then disabled, so the cost is negligible)."""
+    import os
+    d = os.environ.get("VERIF_REACH")
+    mon = getattr(sys, "monitoring", None)
+    if not d or mon is None:
+        return None
+    prefix = os.path.join(repo, "mir_eval") + os.sep
+    seen = set()
+    tool = 4
+    mon.use_tool_id(tool, "verif-reach")
+
+    def line(code, ln):
+        fn = code.co_filename
+        if fn.startswith(prefix):
+            seen.add((fn[len(prefix):], ln))
+        return mon.DISABLE
+
+    mon.register_callback(tool, mon.events.LINE, line)
+    mon.set_events(tool, mon.events.LINE)
+
+    def finish(prop_id, shard):
+        mon.set_events(tool, 0)
+        os.makedirs(d, exist_ok=True)
+        with open(os.path.join(d, "%s-%s.json" % (prop_id, shard)), "w") as fh:
+            json.dump(sorted(seen), fh)
+    return finish
+
+
 def main():
     prop_id, tier, seed, inp, out, timeout = sys.argv[1:7]
     seed = int(seed)
@@ -19,6 +50,7 @@ def main():
         spec = json.load(f)
     warnings.simplefilter("ignore")
     env.load_repo()
+    reach = _start_reach(env.repo_dir())
     from .ctx import Ctx, dump_json, unpack
     prop = importlib.import_module("vlib.props." + prop_id.lower())
     ctx = Ctx(prop_id, tier, seed, spec["name"])
@@ -31,6 +63,8 @@ def main():
     except Exception:
         ctx.mark_inconclusive("worker exception: " + traceback.format_exc()[-1500:])
     dump_json(ctx.summary(), out)
+    if reach is not None:
+        reach(prop_id, spec["name"])
     faulthandler.cancel_dump_traceback_later()
     return 0
 
